@@ -38,7 +38,9 @@ def density_cases(draw):
                  max_K=gens.rounded(draw(gens.logfloat(1.0, 1e3))), mu=gens.rounded(draw(gens.fl(-5, 5))),
                  K_unit=draw(st.sampled_from(og.VEL_UNITS)), P0_unit=draw(st.sampled_from(["d", "yr", "h"])),
                  P_unit=draw(st.sampled_from(["d", "yr"])),
-                 pts=[[gens.rounded(draw(gens.logfloat(0.1, 1e4))), gens.rounded(draw(gens.fl(0, 0.98))), gens.rounded(draw(gens.fl(-200, 200)))]
+                 pts=[[gens.rounded(draw(gens.logfloat(0.1, 1e4))),
+                       draw(st.one_of(gens.fl(0, 0.98).map(gens.rounded), st.sampled_from([0.99, 0.995, 0.999, 0.9999, 0.99999]))),
+                       gens.rounded(draw(gens.fl(-200, 200)))]
                       for _ in range(6)])
     else:
         c.update(x=[gens.rounded(draw(gens.fl(-0.2, 1.2))) for _ in range(8)])
@@ -58,7 +60,7 @@ def density_body_factory(ctx):
         edge = False
         if kind == "UniformLog":
             a, b = c["a"], c["b"]
-            x = np.array([a * (b / a) ** t for t in c["u"]] + [a, b, a * (1 - 1e-9), b * (1 + 1e-9)])
+            x = np.array([a * (b / a) ** t for t in c["u"]] + [a, b, a * (1 - 1e-9), b * (1 + 1e-9), 0.0, -a, -1e-3 * b])
             with ctx.sut("pm.logp(UniformLog)"):
                 lp = np.asarray(pm.logp(dist.UniformLog.dist(a, b), x).eval(), dtype=float)
             inside = (x >= a) & (x <= b)
@@ -238,7 +240,90 @@ def prior_body_factory(ctx, ndraw):
     return body
 
 
+# ----------------------------------------------------------------------------- priors with dependent nonlinear parameters
+@st.composite
+def conditional_cases(draw):
+    a = gens.rounded(draw(gens.logfloat(0.5, 50.0)))
+    return {"a": a, "b": gens.rounded(a * draw(gens.logfloat(3.0, 300.0))), "slope": gens.rounded(draw(gens.fl(0.5, 6.0))),
+            "which": draw(st.sampled_from(["e|P", "s|P", "e|P", "K|P"])), "seed": draw(st.integers(0, 2**32 - 1)),
+            "generate_linear": draw(st.booleans())}
+
+
+def conditional_body_factory(ctx):
+    import astropy.units as u
+    import pymc as pm
+    import pytensor.tensor as pt
+    import scipy.stats as ss
+
+    import thejoker as tj
+    import thejoker.units as xu
+
+    def body(c):
+        a, b, k = c["a"], c["b"], c["slope"]
+        which = c["which"]
+        with ctx.sut("building a prior whose parameters depend on the period"):
+            with pm.Model() as model:
+                P = xu.with_unit(pm.Uniform("P", a, b), u.day)
+                frac = (P - a) / (b - a)
+                pars = {"P": P}
+                if which == "e|P":
+                    # tidal circularisation: short periods prefer small eccentricities
+                    pars["e"] = xu.with_unit(pm.Beta("e", 0.867, 3.03 + k * (1 - frac)), u.one)
+                elif which == "s|P":
+                    pars["s"] = xu.with_unit(pm.Lognormal("s", -2.0 + k * frac, 0.5), u.km / u.s)
+                else:
+                    pars["K"] = xu.with_unit(pm.Normal("K", 0.0, 1.0 + k * frac), u.km / u.s)
+                kw = dict(sigma_v=10 * u.km / u.s, pars=pars, model=model)
+                if which != "K|P":
+                    kw["sigma_K0"] = 20 * u.km / u.s
+                prior = tj.JokerPrior.default(**kw)
+        gl = c["generate_linear"] or which == "K|P"
+        with ctx.sut("prior.sample(return_logprobs=True)"):
+            t = prior.sample(size=600, generate_linear=gl, return_logprobs=True, rng=np.random.default_rng(c["seed"]))
+        lp = np.asarray(t["ln_prior"], dtype=float)
+        Pd = t["P"].to_value(u.day)
+        e = np.asarray(t["e"].value, dtype=float)
+        fr = (Pd - a) / (b - a)
+        if Pd.min() < a or Pd.max() > b:
+            raise Violation("period draws outside the declared support", min=Pd.min(), max=Pd.max())
+        dens = np.zeros(len(t))
+        if which == "e|P":
+            be = 3.03 + k * (1 - fr)
+            dens += ss.beta.logpdf(e, 0.867, be)
+            pit = ss.beta.cdf(e, 0.867, be)
+        else:
+            dens += ss.beta.logpdf(e, 0.867, 3.03)
+        if which == "s|P":
+            sv = t["s"].to_value(u.km / u.s)
+            dens += ss.lognorm.logpdf(sv, 0.5, scale=np.exp(-2.0 + k * fr))
+            pit = ss.norm.cdf((np.log(sv) - (-2.0 + k * fr)) / 0.5)
+        if gl:
+            Kv = t["K"].to_value(u.km / u.s)
+            if which == "K|P":
+                dens += ss.norm.logpdf(Kv, 0.0, 1.0 + k * fr)
+                pit = ss.norm.cdf(Kv / (1.0 + k * fr))
+            else:
+                sig = np.clip(20.0 * (Pd / 365.25) ** (-1.0 / 3) / np.sqrt(1 - e ** 2), 0, 500.0)
+                dens += ss.norm.logpdf(Kv, 0.0, sig)
+            dens += ss.norm.logpdf(t["v0"].to_value(u.km / u.s), 0.0, 10.0)
+        pv = ss.kstest(pit, ss.uniform.cdf).pvalue
+        if pv < 1e-9:
+            raise Violation("draws of the dependent parameter (%s) do not follow its conditional distribution (KS p=%.3g)" % (which, pv))
+        diff = lp - dens
+        spread = float(np.max(diff) - np.min(diff))
+        scale = float(np.max(np.abs(dens)) + np.max(np.abs(lp)) + 1)
+        if not np.all(np.isfinite(lp)) or spread > 1e-6 * scale:
+            j = int(np.argmax(np.abs(diff - np.median(diff))))
+            raise Violation("ln_prior is not (up to one additive constant) the log of the joint density the rows were drawn from "
+                            "(a parameter's prior depends on the period)", which=which, spread=spread, generate_linear=gl,
+                            row_P=Pd[j], row_e=e[j], ln_prior=lp[j], declared_log_density=dens[j], typical_difference=float(np.median(diff)))
+        ctx.note_case(c, True, ["conditional:" + which, "conditional:generate_linear=%s" % gl])
+
+    return body
+
+
 def run(ctx):
+    ctx.search("conditional", conditional_cases(), conditional_body_factory(ctx), quick=24, thorough=600, shrink=False)
     ctx.search("densities", density_cases(), density_body_factory(ctx), quick=240, thorough=6000, shrink=ctx.quick is False)
     ctx.search("priors", prior_cases(), prior_body_factory(ctx, 4000 if ctx.quick else 20000), quick=100, thorough=2400,
                shrink=False)
